@@ -184,12 +184,13 @@ pub unsafe fn simd_prefix_search_avx2(
         if lt_mask == 0xFFFFFFFF {
             left = batch_start + AVX2_BATCH_SIZE;
             continue;
-        } else if lt_mask == 0 {
+        } else if lt_mask == 0 && eq_mask == 0 {
             right = batch_start;
             continue;
         }
 
         let first_ge_idx = (lt_mask.trailing_ones() / 4) as usize;
+        let prev_right = right;
 
         if first_ge_idx > 0 {
             left = batch_start + first_ge_idx - 1;
@@ -204,7 +205,12 @@ pub unsafe fn simd_prefix_search_avx2(
                 (31 - eq_mask.leading_zeros()) as usize / 4
             };
             left = left.min(batch_start + first_eq_idx);
-            right = right.max(batch_start + last_eq_idx + 1);
+            // a tie in the last lane may continue past the batch: keep the previous bound
+            right = if last_eq_idx == 7 {
+                prev_right
+            } else {
+                right.max(batch_start + last_eq_idx + 1)
+            };
         }
 
         break;
